@@ -63,13 +63,17 @@ func init() {
 }
 
 type kase struct {
-	N      int      `json:"n"`
-	Edges  [][2]int `json:"edges"` // [dep, dependant]
-	Style  string   `json:"style"`
-	Extra  string   `json:"extra,omitempty"` // dynamic | cycle
-	Order  []int    `json:"order,omitempty"` // choice sequence (replay)
-	FailAt int      `json:"fail_at"`         // -1 none; index in the event sequence
-	FailKind string `json:"fail_kind,omitempty"`
+	N        int      `json:"n"`
+	Edges    [][2]int `json:"edges"` // [dep, dependant]
+	Style    string   `json:"style"`
+	Extra    string   `json:"extra,omitempty"` // dynamic | cycle
+	Order    []int    `json:"order,omitempty"` // choice sequence (replay)
+	FailAt   int      `json:"fail_at"`         // -1 none; index in the event sequence
+	FailKind string   `json:"fail_kind,omitempty"`
+	// dynamic-other: the task whose list creates the dynamic task and the
+	// (different) task it depends on
+	DynGen int `json:"dyn_gen,omitempty"`
+	DynDep int `json:"dyn_dep,omitempty"`
 }
 
 var styles = []string{"field", "root", "mid", "after", "interp"}
@@ -110,6 +114,10 @@ func program(c kase) string {
 	case "dynamic":
 		// task that exists only after t0 completed; depends on t0
 		sb.WriteString("if t0.out != _|_ {\n\tdyn: {\n\t\t$id: \"t\"\n\t\tout: string\n\t\tin0: t0.out\n\t}\n}\n")
+	case "dynamic-other":
+		// task that comes into existence once t0 has filled its list but
+		// depends on t1 only (the comprehension variable is unused)
+		fmt.Fprintf(&sb, "for y in t%d.list {\n\tdynx: {\n\t\t$id: \"t\"\n\t\tout: string\n\t\tin%d: t%d.out\n\t}\n}\nt%d: list: [...string]\n", c.DynGen, c.DynDep, c.DynDep, c.DynGen)
 	case "dynamic-list":
 		sb.WriteString("for i, x in t0.list {\n\t\"dyn\\(i)\": {\n\t\t$id: \"t\"\n\t\tout: string\n\t\tin0: x\n\t}\n}\nt0: list: [...string]\n")
 	}
@@ -131,14 +139,14 @@ type runnerState struct {
 }
 
 type execution struct {
-	events   []string
-	starts   map[string]int
-	finished map[string]bool
+	events          []string
+	starts          map[string]int
+	finished        map[string]bool
 	pendingAtChoice [][]string
-	runErr   error
-	final    string
-	viol     string
-	inputsAtStart map[string]map[string]string
+	runErr          error
+	final           string
+	viol            string
+	inputsAtStart   map[string]map[string]string
 }
 
 // execute runs the workflow once inside a bubble following the choice
@@ -215,7 +223,7 @@ func execute(c kase, order []int) *execution {
 				ex.finished[name] = true
 				ex.events = append(ex.events, "finish:"+name)
 				res := map[string]any{"out": "r-" + name}
-				if name == "t0" && c.Extra == "dynamic-list" {
+				if (name == "t0" && c.Extra == "dynamic-list") || (c.Extra == "dynamic-other" && name == fmt.Sprintf("t%d", c.DynGen)) {
 					res["list"] = []string{"a", "b"}
 				}
 				ft.Fill(res)
@@ -431,8 +439,20 @@ func checkExecution(c kase, dep map[int]map[int]bool, ex *execution) string {
 					}
 				}
 			}
-			if strings.HasPrefix(name, "dyn") && !finished["t0"] {
+			if strings.HasPrefix(name, "dyn") && name != "dynx" && !finished["t0"] {
 				return "dynamic task " + name + " started before t0 completed"
+			}
+			if name == "dynx" {
+				g, d := fmt.Sprintf("t%d", c.DynGen), fmt.Sprintf("t%d", c.DynDep)
+				if !finished[g] {
+					return "dynamic task dynx started before its generator " + g + " completed"
+				}
+				if !finished[d] {
+					return "dynamic task dynx started before its dependency " + d + " completed"
+				}
+				if val := ex.inputsAtStart[name][fmt.Sprintf("in%d", c.DynDep)]; !strings.Contains(val, "r-"+d) {
+					return fmt.Sprintf("dynamic task dynx started without seeing the result of %s (%q)", d, val)
+				}
 			}
 		}
 	}
@@ -449,6 +469,10 @@ func checkExecution(c kase, dep map[int]map[int]bool, ex *execution) string {
 		case "dynamic":
 			if ex.starts["dyn"] != 1 {
 				return "dynamic task did not run"
+			}
+		case "dynamic-other":
+			if ex.starts["dynx"] != 1 {
+				return fmt.Sprintf("dynamic task dynx (created after t%d, depending on t%d) ran %d times", c.DynGen, c.DynDep, ex.starts["dynx"])
 			}
 		case "dynamic-list":
 			if ex.starts["dyn0"] != 1 || ex.starts["dyn1"] != 1 {
@@ -549,6 +573,13 @@ func run(r *core.Run) {
 		dags(n, func(e [][2]int) bool {
 			do(kase{N: n, Edges: e, Style: "field", Extra: "dynamic", FailAt: -1})
 			do(kase{N: n, Edges: e, Style: "field", Extra: "dynamic-list", FailAt: -1})
+			for g := 0; g < n; g++ {
+				for d := 0; d < n; d++ {
+					if g != d {
+						do(kase{N: n, Edges: e, Style: "field", Extra: "dynamic-other", FailAt: -1, DynGen: g, DynDep: d})
+					}
+				}
+			}
 			return true
 		})
 	}
